@@ -12,7 +12,7 @@ git diff -- pyteal feature_gates > $OUT/patch.diff
 cp demo.py $OUT/demo.py 2>/dev/null
 cp NOTES.md $OUT/NOTES.md 2>/dev/null
 # demo with the change
-git stash -q 2>/dev/null; git apply $OUT/patch.diff
+git checkout -q -- pyteal feature_gates 2>/dev/null; git apply $OUT/patch.diff
 /venv/bin/python demo.py > $OUT/demo_with.log 2>&1; WITH=$?
 git checkout -q -- pyteal feature_gates 2>/dev/null
 /venv/bin/python demo.py > $OUT/demo_without.log 2>&1; WITHOUT=$?
